@@ -6,19 +6,20 @@
 
    The routines of other areas that this code calls are SECTION VARIABLES (kernels):
      k_mac      = multiplication.rs  mac_with_carry        (Mul.mac_with_carry)
-     k_mul      = `&BigUint * &BigUint`                    (Mul.umul p)
-     k_divrem   = `Integer::div_rem(&BigUint, &BigUint)`   (Div.udivrem p)
+     k_mul      = `&BigUint * &BigUint`                    (Mul.umul (rp_mul p))
+     k_divrem   = `Integer::div_rem(&BigUint, &BigUint)`   (Div.udivrem (rp_div p))
      k_divdig   = division.rs  div_rem_digit               (Div.div_rem_digit)
      k_from_bits / k_from_inexact / k_to_bits / k_to_inexact = the four bit-regrouping
                   routines of convert.rs                   (module BitDigits)
-   They are instantiated with the models of those areas in model/RadixInst.v.
+   They are bound to the models of those areas in model/RadixKernels.v / model/RadixApi.v.
    Small digits (`u8`) are [Z] in [list Z]. *)
-From BigNum Require Import Base AddSub Div.
+From BigNum Require Import Base AddSub Mul Div.
 Open Scope Z_scope.
 
 (** Source-extracted parameters of this area. *)
 Record radix_params := {
   rp_as : addsub_params;        (* add2 used by from_radix_digits_be *)
+  rp_mul : mul_params;          (* `&big_base * &big_base` *)
   rp_div : div_params;          (* `digits.div_rem(&big_base)` *)
   rp_str_lo : Z; rp_str_hi : Z; (* `assert!(2 <= radix && radix <= 36)` (text) *)
   rp_dig_lo : Z; rp_dig_hi : Z; (* `assert!(2 <= radix && radix <= 256)` (digit vectors) *)
